@@ -561,3 +561,58 @@ impl KMonitor for C11 {
         self.own.observe(ctx);
     }
 }
+
+// ---------------------------------------------------------------- C04 (selector part)
+
+/// The scheduler itself (no shell, no override): whatever it returns must be an
+/// eligible uplink by the monitor's own model.
+#[derive(Default)]
+pub struct C04K {
+    own: OwnModel,
+}
+
+impl KMonitor for C04K {
+    fn on_start(&mut self, w: &KWorld) {
+        self.own.start(w);
+    }
+    fn on_event(&mut self, ctx: &KCtx<'_>, out: &mut MonOut) {
+        for s in &ctx.eff.selects {
+            let Some(i) = s.result else { continue };
+            if i >= s.pre.len() {
+                continue;
+            }
+            out.probe("c04k.decision");
+            let gated = s.post[i].verif_private().stall_gated;
+            let l = &self.own.links[i];
+            let heard = l.heard_at.is_some_and(|h| s.now.saturating_sub(h) < s.cfg.conn_timeout_ms);
+            let reason = if !(l.registered && l.connected) {
+                Some("unregistered")
+            } else if !heard {
+                Some("timed_out")
+            } else if gated {
+                Some("stall_gated")
+            } else {
+                None
+            };
+            if s.post.iter().enumerate().any(|(k, c)| k != i && c.connected && (c.verif_private().stall_gated || !self.own.usable(k, s.now, s.cfg.conn_timeout_ms))) {
+                out.probe("c04k.ineligible_link_present");
+            }
+            if let Some(r) = reason {
+                out.violate(
+                    "C04.ineligible_route",
+                    &format!("selector/{r}"),
+                    ctx.idx,
+                    format!(
+                        "scheduler ({}) returned link {i}: registered={} connected={} heard {:?} ms ago (timeout {}) stall_gated={gated}",
+                        if s.cfg.mode.is_classic() { "classic" } else { "enhanced" },
+                        l.registered,
+                        l.connected,
+                        l.heard_at.map(|h| s.now - h),
+                        s.cfg.conn_timeout_ms
+                    ),
+                );
+            }
+        }
+        self.own.observe(ctx);
+    }
+}
